@@ -40,7 +40,7 @@ Proof.
   rewrite Hp. destruct sub; lia.
 Qed.
 
-Example add_sub_type_fits_sat : add_sub_type {| max64 := 18; max128 := 38; pow_i32 := false; d2d_validates := true |} D64 9 3 4 1 = (10, 3, false).
+Example add_sub_type_fits_sat : add_sub_type {| max64 := 18; max128 := 38; pow_i32 := false; d2d_validates := true; res_validates := true |} D64 9 3 4 1 = (10, 3, false).
 Proof. reflexivity. Qed.
 
 (* ------------------------------------------------------------ mul_type_fits *)
@@ -63,11 +63,11 @@ Proof.
   - apply Z.mul_lt_mono_pos_r; [apply pow10_pos|]; lia.
 Qed.
 
-Example mul_type_fits_sat : mul_type {| max64 := 18; max128 := 38; pow_i32 := false; d2d_validates := true |} D64 4 1 6 2 = Some (10, 3, false).
+Example mul_type_fits_sat : mul_type {| max64 := 18; max128 := 38; pow_i32 := false; d2d_validates := true; res_validates := true |} D64 4 1 6 2 = Some (10, 3, false).
 Proof. reflexivity. Qed.
 
 (* ------------------------------------------------------------ exactness when not clamped *)
-Definition P0' : dparams := {| max64 := 18; max128 := 38; pow_i32 := false; d2d_validates := true |}.
+Definition P0' : dparams := {| max64 := 18; max128 := 38; pow_i32 := false; d2d_validates := true; res_validates := true |}.
 Definition params_ok (P : dparams) : Prop :=
   0 <= max64 P /\ 0 <= max128 P /\ 10 ^ max64 P < 2 ^ 63 /\ 10 ^ max128 P < 2 ^ 127.
 
@@ -146,6 +146,30 @@ Proof.
     assert (2 ^ 127 < 10 ^ Z.of_nat 60) by reflexivity. lia.
 Qed.
 
+(* storing a result that fits the output precision: exact, in both variants, every style and mode *)
+Lemma dec_result_exact : forall P st m k p' x, params_ok P -> 0 <= p' <= max_prec P k -> Z.abs x < 10 ^ p' ->
+  dec_result P st m k p' x = Ok x.
+Proof.
+  intros P st m k p' x HP Hp Hx. unfold dec_result.
+  pose proof (fits_prim P k p' x HP Hp Hx) as Hr.
+  destruct (res_validates P).
+  - unfold checked. rewrite Hr. cbn [bind_out]. rewrite validate_ok by assumption. reflexivity.
+  - apply arith_result_exact; [destruct k; reflexivity|exact Hr].
+Qed.
+
+(* with the validation of the current source: exactly the spec -- the value when it fits p' digits, else an error *)
+Lemma dec_result_spec : forall P st m k p' x, params_ok P -> res_validates P = true -> 0 <= p' <= max_prec P k ->
+  dec_result P st m k p' x = if fits p' x then Ok x else Err.
+Proof.
+  intros P st m k p' x HP Hv Hp. unfold dec_result, fits. rewrite Hv.
+  destruct (Z.abs x <? 10 ^ p') eqn:Hf.
+  - apply Z.ltb_lt in Hf. unfold checked. rewrite (fits_prim P k p' x HP Hp Hf). cbn [bind_out].
+    rewrite validate_ok by assumption. reflexivity.
+  - apply Z.ltb_ge in Hf. unfold checked. destruct (in_range Signed (prim_bits k) x) eqn:Hr; cbn [bind_out]; [|reflexivity].
+    destruct (validate_precision P k x p') eqn:Hval; [|reflexivity].
+    pose proof (validate_sound P k x p' ltac:(lia) Hr Hval). lia.
+Qed.
+
 Lemma cast_dec_exact : forall P m k p s v p' s' M, params_ok P -> 0 <= s <= p -> s <= s' ->
   p - s <= M -> 0 <= M + s' <= p' -> p' <= max_prec P k -> Z.abs v < 10 ^ p ->
   cast_operand P m k p' s' (ODec p s v) = Ok (v * 10 ^ (s' - s)).
@@ -191,7 +215,7 @@ Proof.
             (if sub then a * 10 ^ (s' - s1) - b * 10 ^ (s' - s2) else a * 10 ^ (s' - s1) + b * 10 ^ (s' - s2)) = true).
   { apply (fits_prim P k p'); auto. lia. }
   split.
-  - f_equal. destruct sub; apply arith_result_exact; cbn in Hin |- *; try assumption; destruct k; reflexivity.
+  - f_equal. apply dec_result_exact; [exact HP|lia|exact Hfit].
   - unfold fits. apply Z.ltb_lt in Hfit. destruct sub; rewrite Hfit; reflexivity.
 Qed.
 
@@ -214,33 +238,16 @@ Proof.
     destruct (max_prec P k <? p1 + p2) eqn:Hc; [destruct (max_prec P k <? s1 + s2); discriminate|].
     destruct (p1 + p2 <? s1 + s2); [discriminate|]. injection Ht as <- <-. lia. }
   unfold dec_mul, spec_mul. cbn [op_meta op_unscaled]. rewrite Ht. split.
-  - do 2 f_equal. apply arith_result_exact; [destruct k; reflexivity|].
-    apply (fits_prim P k p'); auto. lia.
+  - do 2 f_equal. cbn [fst]. apply dec_result_exact; [exact HP|lia|exact Hfit].
   - unfold fits. apply Z.ltb_lt in Hfit. rewrite Hfit. reflexivity.
 Qed.
 
-(* ------------------------------------------------------------ refutations (clamped precision) *)
-Definition P0 : dparams := {| max64 := 18; max128 := 38; pow_i32 := false; d2d_validates := true |}.
+(* ------------------------------------------------------------ every precision, clamped or not *)
+Definition P0 : dparams := {| max64 := 18; max128 := 38; pow_i32 := false; d2d_validates := true; res_validates := true |}.
 
 Lemma params_ok_P0 : params_ok P0.
 Proof. unfold params_ok, P0. cbn [max64 max128]. repeat split; try lia; reflexivity. Qed.
 
-(* Full statement dec_addsub_exact_or_error: the value returned always fits the declared type:
-     dec_addsub .. = (ty, r) -> r = spec_addsub ..
-   Refuted when the precision was clamped: 19 digits in a decimal(18,_) *)
-Lemma dec_add_clamped_refuted : forall m,
-  dec_addsub P0 Native m D64 false (ODec 18 0 999999999999999999) (ODec 18 0 1)
-    = ((18, 0, true), Ok 1000000000000000000)
-  /\ spec_addsub P0 D64 false (ODec 18 0 999999999999999999) (ODec 18 0 1) = Err.
-Proof. intros m. destruct m; vm_compute; auto. Qed.
-
-Lemma dec_add_clamped_refuted_scale18 : forall m,
-  dec_addsub P0 Native m D64 false (ODec 18 18 500000000000000000) (ODec 18 18 500000000000000000)
-    = ((18, 18, true), Ok 1000000000000000000)
-  /\ spec_addsub P0 D64 false (ODec 18 18 500000000000000000) (ODec 18 18 500000000000000000) = Err.
-Proof. intros m. destruct m; vm_compute; auto. Qed.
-
-(* ------------------------------------------------------------ what holds for EVERY precision, clamped or not *)
 Lemma cast_dec_ok_inv : forall P m k p s v p' s' x, d2d_validates P = true -> 0 <= p' -> Z.abs v < 10 ^ p ->
   cast_operand P m k p' s' (ODec p s v) = Ok x -> x = v * 10 ^ (s' - s) /\ Z.abs x < 10 ^ p'.
 Proof.
@@ -255,6 +262,14 @@ Proof.
     split; [reflexivity|]. exact (validate_sound P k _ p' Hp' Hr Hval).
 Qed.
 
+Lemma cast_dec_no_panic : forall P m k p s v p' s', d2d_validates P = true -> cast_operand P m k p' s' (ODec p s v) <> Panic.
+Proof.
+  intros P m k p s v p' s' Hd H. cbn [cast_operand] in H. destruct ((p =? p') && (s =? s')); [discriminate|]. rewrite Hd in H.
+  unfold checked in H. destruct (in_range Signed (prim_bits k) (10 ^ (s' - s))); cbn [bind_out] in H; [|discriminate].
+  destruct (in_range Signed (prim_bits k) (v * 10 ^ (s' - s))); cbn [bind_out] in H; [|discriminate].
+  destruct (validate_precision P k (v * 10 ^ (s' - s)) p'); discriminate.
+Qed.
+
 Lemma add_sub_type_range : forall P k p1 s1 p2 s2 p' s' e, 0 <= max_prec P k -> 0 <= s1 <= p1 -> 0 <= s2 <= p2 ->
   add_sub_type P k p1 s1 p2 s2 = (p', s', e) -> 0 <= p' <= max_prec P k /\ s' = Z.max s1 s2.
 Proof.
@@ -262,86 +277,77 @@ Proof.
   destruct (max_prec P k <? Z.max (p1 - s1) (p2 - s2) + Z.max s1 s2 + 1) eqn:Hc; injection Ht as <- <- _; lia.
 Qed.
 
-Definition params_ok2 (P : dparams) : Prop := params_ok P /\ 2 * 10 ^ max64 P < 2 ^ 63.
-
-(* decimal (+|-) decimal with the casts validating (current source), whatever the precisions:
-   an error; or the EXACT value, with fewer than 2*10^p' in magnitude (at most one digit too many: the
-   add itself is neither checked nor validated); or -- Decimal128 only, native operator only -- the
-   exact value does not fit i128 (panic with overflow checks, a wrapped value without).
-   In particular: no over-precision operand is ever used, and Decimal64 never panics or wraps. *)
-Lemma dec_addsub_exact_or_error_any_precision : forall P st m k sub p1 s1 a p2 s2 b ty r,
-  params_ok2 P -> d2d_validates P = true -> 0 <= s1 <= p1 -> 0 <= s2 <= p2 ->
-  Z.abs a < 10 ^ p1 -> Z.abs b < 10 ^ p2 ->
+(* decimal (+|-) decimal on the current source (casts validate, result checked and validated), for EVERY
+   (p1,s1), (p2,s2), clamped or not, every style and mode: the outcome is the spec's -- the exact value
+   when it has at most p' digits, else an error -- or, only when the precision was clamped, an error because
+   an operand does not fit the common type.  Never a wrong value, never too many digits, never a panic. *)
+Lemma dec_addsub_meets_spec_or_cast_error : forall P st m k sub p1 s1 a p2 s2 b ty r,
+  params_ok P -> d2d_validates P = true -> res_validates P = true ->
+  0 <= s1 <= p1 -> 0 <= s2 <= p2 -> Z.abs a < 10 ^ p1 -> Z.abs b < 10 ^ p2 ->
   dec_addsub P st m k sub (ODec p1 s1 a) (ODec p2 s2 b) = (ty, r) ->
-  let p' := fst (fst ty) in let s' := snd (fst ty) in
-  let v := exact_addsub s' sub (ODec p1 s1 a) (ODec p2 s2 b) in
-  r = Err \/ (r = Ok v /\ Z.abs v < 2 * 10 ^ p') \/
-  (k = D128 /\ st = Native /\ in_range Signed 128 v = false).
+  r = spec_addsub P k sub (ODec p1 s1 a) (ODec p2 s2 b) \/ (r = Err /\ snd ty = true).
 Proof.
-  intros P st m k sub p1 s1 a p2 s2 b ty r [HP H2x] Hd H1 H2 Ha Hb H.
-  unfold dec_addsub in H. cbn [op_meta] in H.
+  intros P st m k sub p1 s1 a p2 s2 b ty r HP Hd Hv H1 H2 Ha Hb H.
   destruct (add_sub_type P k p1 s1 p2 s2) as [[p' s'] e] eqn:Ht.
+  destruct e.
+  2:{ (* not clamped: exact = spec *)
+      destruct (dec_addsub_exact_when_not_clamped P st m k sub p1 s1 a p2 s2 b p' s' HP H1 H2 Ha Hb Ht) as [E1 E2].
+      rewrite E1 in H. apply pair_equal_spec in H. destruct H as [_ <-]. left. symmetry. exact E2. }
+  unfold dec_addsub in H. unfold spec_addsub. cbn [op_meta] in H |- *. rewrite Ht in H |- *.
   assert (Hmax0 : 0 <= max_prec P k) by (destruct HP as (? & ? & _); destruct k; cbn [max_prec]; lia).
-  destruct (add_sub_type_range P k p1 s1 p2 s2 p' s' e Hmax0 H1 H2 Ht) as [Hp' Hs'].
-  apply pair_equal_spec in H. destruct H as [<- <-]. cbn [fst snd].
-  destruct (cast_operand P m k p' s' (ODec p1 s1 a)) as [a'| |] eqn:Ca; cbn [bind_out]; [|left; reflexivity|].
-  2:{ exfalso. cbn [cast_operand] in Ca. destruct ((p1 =? p') && (s1 =? s')); [discriminate|]. rewrite Hd in Ca.
-      unfold checked in Ca. destruct (in_range Signed (prim_bits k) (10 ^ (s' - s1))); cbn [bind_out] in Ca; [|discriminate].
-      destruct (in_range Signed (prim_bits k) (a * 10 ^ (s' - s1))); cbn [bind_out] in Ca; [|discriminate].
-      destruct (validate_precision P k (a * 10 ^ (s' - s1)) p'); discriminate. }
-  destruct (cast_operand P m k p' s' (ODec p2 s2 b)) as [b'| |] eqn:Cb; cbn [bind_out]; [|left; reflexivity|].
-  2:{ exfalso. cbn [cast_operand] in Cb. destruct ((p2 =? p') && (s2 =? s')); [discriminate|]. rewrite Hd in Cb.
-      unfold checked in Cb. destruct (in_range Signed (prim_bits k) (10 ^ (s' - s2))); cbn [bind_out] in Cb; [|discriminate].
-      destruct (in_range Signed (prim_bits k) (b * 10 ^ (s' - s2))); cbn [bind_out] in Cb; [|discriminate].
-      destruct (validate_precision P k (b * 10 ^ (s' - s2)) p'); discriminate. }
-  destruct (cast_dec_ok_inv P m k p1 s1 a p' s' a' Hd ltac:(lia) Ha Ca) as [Ea Ba].
-  destruct (cast_dec_ok_inv P m k p2 s2 b p' s' b' Hd ltac:(lia) Hb Cb) as [Eb Bb].
-  unfold exact_addsub. cbn [op_unscaled op_meta snd]. rewrite <- Ea, <- Eb.
-  set (x := if sub then a' - b' else a' + b').
-  assert (Hx : Z.abs x < 2 * 10 ^ p') by (subst x; destruct sub; lia).
-  destruct (in_range Signed (prim_bits k) x) eqn:Hr.
-  - right. left. split; [|exact Hx]. apply arith_result_exact; [destruct k; reflexivity|exact Hr].
-  - destruct k.
-    + exfalso. apply in_range_false_iff in Hr. apply Hr. cbn [prim_bits lo hi max_prec] in *. change (64 - 1) with 63.
-      assert (10 ^ p' <= 10 ^ max64 P) by (apply Z.pow_le_mono_r; lia). lia.
-    + destruct st.
-      * right. right. repeat split; try reflexivity. exact Hr.
-      * left. unfold arith_result. rewrite Hr. reflexivity.
+  destruct (add_sub_type_range P k p1 s1 p2 s2 p' s' true Hmax0 H1 H2 Ht) as [Hp' Hs'].
+  apply pair_equal_spec in H. destruct H as [<- <-]. cbn [snd].
+  pose proof (cast_dec_no_panic P m k p1 s1 a p' s' Hd) as Na.
+  pose proof (cast_dec_no_panic P m k p2 s2 b p' s' Hd) as Nb.
+  destruct (cast_operand P m k p' s' (ODec p1 s1 a)) as [a'| |] eqn:Ca; cbn [bind_out]; [|right; auto|congruence].
+  destruct (cast_operand P m k p' s' (ODec p2 s2 b)) as [b'| |] eqn:Cb; cbn [bind_out]; [|right; auto|congruence].
+  destruct (cast_dec_ok_inv P m k p1 s1 a p' s' a' Hd ltac:(lia) Ha Ca) as [Ea _].
+  destruct (cast_dec_ok_inv P m k p2 s2 b p' s' b' Hd ltac:(lia) Hb Cb) as [Eb _].
+  left. unfold exact_addsub. cbn [op_unscaled op_meta snd]. rewrite <- Ea, <- Eb.
+  apply dec_result_spec; assumption.
 Qed.
 
-Example dec_addsub_any_precision_sat : params_ok2 P0 /\ d2d_validates P0 = true.
-Proof. unfold params_ok2, params_ok, P0. cbn [max64 max128 d2d_validates]. repeat split; try lia; reflexivity. Qed.
+Example dec_addsub_meets_spec_sat : params_ok P0 /\ d2d_validates P0 = true /\ res_validates P0 = true.
+Proof. split; [exact params_ok_P0|split; reflexivity]. Qed.
 
-(* integer operand of a decimal + / -: the scale factor 10^s' is exact now (it used to be computed in i32:
-   panic / wrong value for s' >= 10) *)
+(* decimal * decimal on the current source, EVERY precision pair: exactly the spec *)
+Lemma dec_mul_meets_spec : forall P st m k p1 s1 a p2 s2 b ty r,
+  params_ok P -> res_validates P = true -> 0 <= p1 -> 0 <= p2 ->
+  dec_mul P st m k (ODec p1 s1 a) (ODec p2 s2 b) = Some (ty, r) ->
+  spec_mul P k (ODec p1 s1 a) (ODec p2 s2 b) = Some r.
+Proof.
+  intros P st m k p1 s1 a p2 s2 b ty r HP Hv Hp1 Hp2 H.
+  unfold dec_mul in H. unfold spec_mul. cbn [op_meta op_unscaled] in H |- *.
+  destruct (mul_type P k p1 s1 p2 s2) as [[[p' s'] c]|] eqn:Ht; [|discriminate].
+  injection H as <- <-. cbn [fst]. f_equal. symmetry.
+  assert (Hmax0 : 0 <= max_prec P k) by (destruct HP as (? & ? & _); destruct k; cbn [max_prec]; lia).
+  apply dec_result_spec; try assumption.
+  unfold mul_type in Ht. destruct (max_prec P k <? s1 + s2); [discriminate|].
+  destruct (max_prec P k <? p1 + p2) eqn:Hc; destruct (_ <? s1 + s2); try discriminate; injection Ht as <- _ _; lia.
+Qed.
+
+(* the inputs that used to give 19 digits in a decimal(18,_) / a panic / a wrapped product now fail *)
+Lemma dec_clamped_now_error : forall m,
+  dec_addsub P0 Checked m D64 false (ODec 18 0 999999999999999999) (ODec 18 0 1) = ((18, 0, true), Err)
+  /\ spec_addsub P0 D64 false (ODec 18 0 999999999999999999) (ODec 18 0 1) = Err
+  /\ dec_mul P0 Checked m D64 (ODec 9 0 500000000) (ODec 10 0 9999999999) = Some ((18, 0, true), Err)
+  /\ dec_mul P0 Checked m D64 (ODec 10 0 9999999999) (ODec 10 0 9999999999) = Some ((18, 0, true), Err)
+  /\ spec_mul P0 D64 (ODec 10 0 9999999999) (ODec 10 0 9999999999) = Some Err.
+Proof. intros m. destruct m; vm_compute; repeat split; reflexivity. Qed.
+
+(* integer operand of a decimal + / -: the scale factor 10^s' is exact (it used to be computed in i32) *)
 Lemma int_to_decimal_scale_exact_now : forall m,
-  dec_addsub P0 Native m D64 false (ODec 12 10 15000000000) (OInt 8 1) = ((14, 10, false), Ok 25000000000)
+  dec_addsub P0 Checked m D64 false (ODec 12 10 15000000000) (OInt 8 1) = ((14, 10, false), Ok 25000000000)
   /\ spec_addsub P0 D64 false (ODec 12 10 15000000000) (OInt 8 1) = Ok 25000000000.
 Proof. intros m. destruct m; vm_compute; auto. Qed.
 
-(* clamped precision, an operand does not fit the common type: the cast now fails (it used to produce an
-   over-precision operand silently); here the exact result 0.5 would be representable in decimal(18,18) *)
+(* The strict statement  dec_addsub .. = (ty, spec_addsub ..)  is refuted only on the error side, and only
+   for clamped precisions: an operand that does not fit the common type fails its cast although the
+   exact result (here 0.5) is representable in the result type decimal(18,18) *)
 Lemma dec_add_clamped_cast_error_though_representable : forall m,
-  dec_addsub P0 Native m D64 false (ODec 18 0 10) (ODec 18 18 (-9500000000000000000))
-    = ((18, 18, true), Err)
-  /\ dec_addsub P0 Native m D64 false (ODec 18 0 1) (ODec 18 18 (-500000000000000000)) = ((18, 18, true), Err)
+  dec_addsub P0 Checked m D64 false (ODec 18 0 1) (ODec 18 18 (-500000000000000000)) = ((18, 18, true), Err)
   /\ spec_addsub P0 D64 false (ODec 18 0 1) (ODec 18 18 (-500000000000000000)) = Ok 500000000000000000.
 Proof. intros m. destruct m; vm_compute; auto. Qed.
-
-(* decimal multiplication with clamped precision: too many digits (fits i64), or overflow of the
-   primitive (Panic in Debug, a wrapped value in Release) *)
-Lemma dec_mul_clamped_refuted_digits : forall m,
-  dec_mul P0 Native m D64 (ODec 9 0 500000000) (ODec 10 0 9999999999)
-    = Some ((18, 0, true), Ok 4999999999500000000)
-  /\ spec_mul P0 D64 (ODec 9 0 500000000) (ODec 10 0 9999999999) = Some Err.
-Proof. intros m. destruct m; vm_compute; auto. Qed.
-
-Lemma dec_mul_clamped_refuted_overflow :
-  dec_mul P0 Native Debug D64 (ODec 10 0 9999999999) (ODec 10 0 9999999999) = Some ((18, 0, true), Panic)
-  /\ dec_mul P0 Native Release D64 (ODec 10 0 9999999999) (ODec 10 0 9999999999)
-     = Some ((18, 0, true), Ok 7766279611452241921)
-  /\ spec_mul P0 D64 (ODec 10 0 9999999999) (ODec 10 0 9999999999) = Some Err.
-Proof. vm_compute. auto. Qed.
 
 (* SUM(decimal): exact or an error (i128 overflow) -- but a total of 39 digits (10^38 <= |t| < 2^127)
    is returned in a Decimal128(38,_) unvalidated *)
@@ -395,9 +401,9 @@ From GV Require Import gen.TablesArith.
 
 Lemma src_params_ok : exists k64 k128,
   d64_max_precision = Some k64 /\ d128_max_precision = Some k128 /\
-  forall pw dv, params_ok {| max64 := k64; max128 := k128; pow_i32 := pw; d2d_validates := dv |}.
+  forall pw dv rv, params_ok {| max64 := k64; max128 := k128; pow_i32 := pw; d2d_validates := dv; res_validates := rv |}.
 Proof.
-  eexists. eexists. split; [reflexivity|]. split; [reflexivity|]. intros pw dv.
+  eexists. eexists. split; [reflexivity|]. split; [reflexivity|]. intros pw dv rv.
   unfold params_ok. cbn [max64 max128]. repeat split; try lia; reflexivity.
 Qed.
 
@@ -417,8 +423,8 @@ Qed.
 
 Lemma src_dec_addsub_exact : exists k64 k128,
   d64_max_precision = Some k64 /\ d128_max_precision = Some k128 /\
-  forall pw dv st m k sub p1 s1 a p2 s2 b p' s',
-  let P := {| max64 := k64; max128 := k128; pow_i32 := pw; d2d_validates := dv |} in
+  forall pw dv rv st m k sub p1 s1 a p2 s2 b p' s',
+  let P := {| max64 := k64; max128 := k128; pow_i32 := pw; d2d_validates := dv; res_validates := rv |} in
   0 <= s1 <= p1 -> 0 <= s2 <= p2 -> Z.abs a < 10 ^ p1 -> Z.abs b < 10 ^ p2 ->
   add_sub_type P k p1 s1 p2 s2 = (p', s', false) ->
   dec_addsub P st m k sub (ODec p1 s1 a) (ODec p2 s2 b)
@@ -427,13 +433,13 @@ Lemma src_dec_addsub_exact : exists k64 k128,
 Proof.
   destruct src_params_ok as (k64 & k128 & H64 & H128 & HP).
   exists k64, k128. split; [exact H64|]. split; [exact H128|].
-  intros pw dv st m k sub p1 s1 a p2 s2 b p' s' P. apply dec_addsub_exact_when_not_clamped. exact (HP pw dv).
+  intros pw dv rv st m k sub p1 s1 a p2 s2 b p' s' P. apply dec_addsub_exact_when_not_clamped. exact (HP pw dv rv).
 Qed.
 
 Lemma src_dec_mul_exact : exists k64 k128,
   d64_max_precision = Some k64 /\ d128_max_precision = Some k128 /\
-  forall pw dv st m k p1 s1 a p2 s2 b p' s',
-  let P := {| max64 := k64; max128 := k128; pow_i32 := pw; d2d_validates := dv |} in
+  forall pw dv rv st m k p1 s1 a p2 s2 b p' s',
+  let P := {| max64 := k64; max128 := k128; pow_i32 := pw; d2d_validates := dv; res_validates := rv |} in
   0 <= p1 -> 0 <= p2 -> Z.abs a < 10 ^ p1 -> Z.abs b < 10 ^ p2 ->
   mul_type P k p1 s1 p2 s2 = Some (p', s', false) ->
   dec_mul P st m k (ODec p1 s1 a) (ODec p2 s2 b) = Some ((p', s', false), Ok (a * b))
@@ -441,33 +447,59 @@ Lemma src_dec_mul_exact : exists k64 k128,
 Proof.
   destruct src_params_ok as (k64 & k128 & H64 & H128 & HP).
   exists k64, k128. split; [exact H64|]. split; [exact H128|].
-  intros pw dv st m k p1 s1 a p2 s2 b p' s' P. apply dec_mul_exact_when_not_clamped. exact (HP pw dv).
+  intros pw dv rv st m k p1 s1 a p2 s2 b p' s' P. apply dec_mul_exact_when_not_clamped. exact (HP pw dv rv).
 Qed.
 
-Lemma src_dec_addsub_exact_or_error_any_precision : exists k64 k128,
-  d64_max_precision = Some k64 /\ d128_max_precision = Some k128 /\ decimal_to_decimal_validates = Some 1 /\
+(* the full-strength decimal theorems, about the source as scanned: the three facts they rest on are
+   read from to_decimal.rs and arith/{add,sub,mul}.rs *)
+Lemma src_dec_addsub_meets_spec : exists k64 k128,
+  d64_max_precision = Some k64 /\ d128_max_precision = Some k128 /\
+  decimal_to_decimal_validates = Some 1 /\ dec_add_validates = Some 1 /\ dec_sub_validates = Some 1 /\
   forall pw st m k sub p1 s1 a p2 s2 b ty r,
-  let P := {| max64 := k64; max128 := k128; pow_i32 := pw; d2d_validates := true |} in
+  let P := {| max64 := k64; max128 := k128; pow_i32 := pw; d2d_validates := true; res_validates := true |} in
   0 <= s1 <= p1 -> 0 <= s2 <= p2 -> Z.abs a < 10 ^ p1 -> Z.abs b < 10 ^ p2 ->
   dec_addsub P st m k sub (ODec p1 s1 a) (ODec p2 s2 b) = (ty, r) ->
-  let p' := fst (fst ty) in let s' := snd (fst ty) in
-  let v := exact_addsub s' sub (ODec p1 s1 a) (ODec p2 s2 b) in
-  r = Err \/ (r = Ok v /\ Z.abs v < 2 * 10 ^ p') \/
-  (k = D128 /\ st = Native /\ in_range Signed 128 v = false).
+  r = spec_addsub P k sub (ODec p1 s1 a) (ODec p2 s2 b) \/ (r = Err /\ snd ty = true).
 Proof.
   destruct src_params_ok as (k64 & k128 & H64 & H128 & HP).
-  exists k64, k128. split; [exact H64|]. split; [exact H128|]. split; [reflexivity|].
-  intros pw st m k sub p1 s1 a p2 s2 b ty r P. apply dec_addsub_exact_or_error_any_precision; [|reflexivity].
-  split; [exact (HP pw true)|]. subst P. cbn [max64].
-  unfold d64_max_precision in H64. injection H64 as <-. reflexivity.
+  exists k64, k128. repeat (split; [first [exact H64|exact H128|reflexivity]|]).
+  intros pw st m k sub p1 s1 a p2 s2 b ty r P. apply dec_addsub_meets_spec_or_cast_error; try reflexivity.
+  exact (HP pw true true).
+Qed.
+
+Lemma src_dec_mul_meets_spec : exists k64 k128,
+  d64_max_precision = Some k64 /\ d128_max_precision = Some k128 /\ dec_mul_validates = Some 1 /\
+  forall pw dv st m k p1 s1 a p2 s2 b ty r,
+  let P := {| max64 := k64; max128 := k128; pow_i32 := pw; d2d_validates := dv; res_validates := true |} in
+  0 <= p1 -> 0 <= p2 ->
+  dec_mul P st m k (ODec p1 s1 a) (ODec p2 s2 b) = Some (ty, r) ->
+  spec_mul P k (ODec p1 s1 a) (ODec p2 s2 b) = Some r.
+Proof.
+  destruct src_params_ok as (k64 & k128 & H64 & H128 & HP).
+  exists k64, k128. repeat (split; [first [exact H64|exact H128|reflexivity]|]).
+  intros pw dv st m k p1 s1 a p2 s2 b ty r P. apply dec_mul_meets_spec; try reflexivity.
+  exact (HP pw dv true).
 Qed.
 
 (* P0, the parameters of the witness lemmas, is the variant the current source has *)
 Lemma src_P0 : d64_max_precision = Some (max64 P0) /\ d128_max_precision = Some (max128 P0) /\
   int_to_decimal_pow_i32 = Some (if pow_i32 P0 then 1 else 0) /\
-  decimal_to_decimal_validates = Some (if d2d_validates P0 then 1 else 0).
+  decimal_to_decimal_validates = Some (if d2d_validates P0 then 1 else 0) /\
+  dec_add_validates = Some (if res_validates P0 then 1 else 0).
 Proof. repeat split; reflexivity. Qed.
 
 (* sum.rs fails on overflow (the scanner finds no `unwrap_or_default` after checked_add) *)
 Lemma src_sum_fails_on_overflow : sum_resets_on_overflow = Some 0.
 Proof. reflexivity. Qed.
+
+(* ------------------------------------------------------------ integers: the current source is the Checked style *)
+Lemma src_never_wraps_never_panics :
+  add_native = Some 0 /\ sub_native = Some 0 /\ mul_native = Some 0 /\ div_native = Some 0 /\ rem_native = Some 0 /\
+  rem_checked_min_neg1_is_zero = Some 1 /\
+  forall m sg w op a b, 0 < w -> in_range sg w a = true -> in_range sg w b = true ->
+  impl_bin Checked m sg w op a b = spec_bin sg w op a b.
+Proof. repeat (split; [reflexivity|]). exact checked_style_meets_spec. Qed.
+
+Lemma src_neg_never_wraps_never_panics :
+  neg_native = Some 0 /\ forall m w a, impl_neg Checked m w a = spec_neg w a.
+Proof. split; [reflexivity|exact checked_neg_meets_spec]. Qed.
